@@ -16,10 +16,17 @@ def run(chk):
         ex = explore(kind)
         handler_preamble(chk, ex, FUNCS[kind])
         hobl.c11_lifecycle(chk, ex, DOMAIN[kind])
+        if kind in ("step", "wfc", "wait", "invoke"):
+            # 'no second START within one attempt' rests on the record being in the state when the operation is reached again in the same invocation
+            # (a resumed map / parallel branch): the checkpoint before a suspension is synchronous
+            hobl.c03_sync_before_suspend(chk, ex, prefix="C11", domain=DOMAIN[kind])
         if kind in ("step", "wfc"):
             # the same obligations with a strategy whose Duration carries a float (Duration(seconds=0.5): annotated int, not enforced): the records
             # written must not depend on the delay being an int (e.g. no int-only formatting between the RETRY record and the suspension)
             hobl.c11_lifecycle(chk, explore(kind, float_delay=True), DOMAIN[kind])
+    from . import executor_contracts as _X
+    _X.resubmitter_total(chk, "C11")        # ... and a resumed branch is handed back to the pool only after the state was refreshed
+    _X.timer_loop(chk, "C11")
     from . import wrapper_contracts, batcher
     wrapper_contracts.wrapper_obligations(chk, "C11", want=("C11",))
     batcher.check_collect(chk, "C11")      # updates reach the API in hand-over order (a child's START after its parent's START)
